@@ -338,3 +338,40 @@ func Template(r *fw.Rand, o ExprOpts) string {
 	}
 	return b.String()
 }
+
+
+// CallsOfEveryFunction returns, for every registered function and router test, k templates that call it with literal
+// arguments of the usual kinds (texts, dates, numbers, units, formats, arrays, functions, contact values) in its usual
+// arities — for workloads that want every function body run (concurrently, in a real run context), not hostile input.
+func CallsOfEveryFunction(r *fw.Rand, k int) []string {
+	lits := []string{`"Hello wORLD é"`, `"yes no"`, `"2020-02-29T10:30:00.000000Z"`, `"2020-02-29"`, `"10:30"`, `2`, `1.5`, `0`, `"D"`, `"YYYY-MM-DD"`, `"tt:mm"`, `array("b", "a", "b")`, `array(3, 1, 2)`,
+		`contact.name`, `contact.groups`, `contact`, `results`, `"Kigali"`, `"Gasabo"`, `"Gisozi"`, `"Kigali City"`, `"tel:+12065551212"`, `"+12065551212"`, `(x) => x`, `upper`, `"{\"a\":1}"`, `"a,b,c"`, `","`, `"image/jpeg:http://x.io/a.jpg"`, `"bob@nyaruka.com"`, `" "`, `"UTC"`, `"(\\w+)"`}
+	var out []string
+	for _, fn := range FunctionNames() {
+		if NonDeterministic[fn] {
+			continue
+		}
+		for j := 0; j < k; j++ {
+			ar := 1
+			if a, ok := arities[fn]; ok {
+				ar = fw.Pick(r, a)
+			}
+			args := make([]string, ar)
+			for i := range args {
+				args[i] = fw.Pick(r, lits)
+				switch {
+				case fn == "repeat" && i == 1:
+					args[i] = "3"
+				case (fn == "foreach" || fn == "foreach_value" || fn == "filter") && i == 0:
+					args[i] = fw.Pick(r, []string{`array("b", "a", "b")`, `contact.groups`, `results`, `contact`})
+				case (fn == "foreach" || fn == "foreach_value" || fn == "filter") && i == 1:
+					args[i] = fw.Pick(r, []string{`(x) => x`, `upper`, `(x) => title(x)`})
+				case (fn == "has_ward" || fn == "has_district") && i > 0:
+					args[i] = fw.Pick(r, []string{`"Kigali City"`, `"Gasabo"`, `"Kigali"`, `"Nyarugenge"`})
+				}
+			}
+			out = append(out, "@("+fn+"("+strings.Join(args, ", ")+"))")
+		}
+	}
+	return out
+}
